@@ -405,6 +405,58 @@ func extractC01() *lean {
 	l.def("resolveKeyByIDRanges", "List String", leanStrList(ranges), ranges)
 	l.def("relationshipCollections", "List String", leanStrList(rels), rels)
 
+	// jsonld.Configure: which argument decides whether contexts that are not on the allow list may be fetched
+	_, jl := parseFile("jsonld/jsonld.go")
+	var loaderArgs []string
+	if fd := funcDecl(jl, "Configure"); fd != nil {
+		ast.Inspect(fd, func(n ast.Node) bool {
+			if ce, ok := n.(*ast.CallExpr); ok && c01Expr(ce.Fun) == "NewContextLoader" {
+				for _, a := range ce.Args {
+					loaderArgs = append(loaderArgs, c01Expr(a))
+				}
+			}
+			return true
+		})
+	}
+	l.def("contextLoaderArgs", "List String", leanStrList(loaderArgs), loaderArgs)
+	_, lu := parseFile("jsonld/ldutils.go")
+	var filterGuard []string
+	if fd := funcDecl(lu, "NewContextLoader"); fd != nil {
+		ast.Inspect(fd, func(n ast.Node) bool {
+			if is, ok := n.(*ast.IfStmt); ok {
+				filterGuard = append(filterGuard, "if "+c01Expr(is.Cond))
+			}
+			return true
+		})
+	}
+	l.def("contextLoaderGuards", "List String", leanStrList(filterGuard), filterGuard)
+
+	// the verifier keeps no state of its own between calls besides its collaborators: fields of verifier / signatureVerifier
+	var fields []string
+	for _, pf := range []struct {
+		f    *ast.File
+		name string
+	}{{ver, "verifier"}, {sig, "signatureVerifier"}} {
+		ast.Inspect(pf.f, func(n ast.Node) bool {
+			ts, ok := n.(*ast.TypeSpec)
+			if !ok || ts.Name.Name != pf.name {
+				return true
+			}
+			if st, ok := ts.Type.(*ast.StructType); ok {
+				for _, fl := range st.Fields.List {
+					if len(fl.Names) == 0 {
+						fields = append(fields, pf.name+".<embedded> "+c01Expr(fl.Type))
+					}
+					for _, nm := range fl.Names {
+						fields = append(fields, pf.name+"."+nm.Name+" "+c01Expr(fl.Type))
+					}
+				}
+			}
+			return true
+		})
+	}
+	l.def("verifierFields", "List String", leanStrList(fields), fields)
+
 	// trust.Config: the return sequences, and whether RemoveTrust drops EVERY entry equal to the issuer
 	// (a loop over the type's list that keeps the entries `!= issuer`), not just one occurrence
 	_, tr := parseFile("vcr/trust/trust.go")
